@@ -5,10 +5,14 @@ SPEC = {
     "tests": [
         {"name": "TestProfile", "quick": 24000, "thorough": 1600000, "shards_quick": 8, "shards_thorough": 16,
          "timeout": 1500},
+        {"name": "TestHugeProfile", "quick": 16, "thorough": 480, "shards_quick": 8, "shards_thorough": 16, "timeout": 3000},
         {"name": "TestImplicitStartRace", "quick": 3200, "thorough": 160000, "shards_quick": 8, "shards_thorough": 16, "timeout": 1500,
          "race_thorough": True},
     ],
-    "rule": ("rapid generator over const/line/step/once configs (whole-second, 100ms-, ms-, us- and ns-granular durations; "
+    "rule": ("TestHugeProfile (added after seeded defect C01/m17): const / line (flat, rising, falling) / two-level step profiles of 6-30 million "
+             "operations (rates round / whole / three decimals / any float, 1e4-2e6 rps), drained completely and judged token by token without "
+             "storing them by the rules of TestProfile's segments (inside [start, start+duration], never before the predecessor, "
+             "|F(t_k)-k| <= rate x 2 ns + 1e-9 k, count against the exact integral, exact finish). TestProfile: rapid generator over const/line/step/once configs (whole-second, 100ms-, ms-, us- and ns-granular durations; "
              "integer, tenth, arbitrary-float and zero rates; random start instant; built through config.DecodeAndValidate "
              "or the constructors); each schedule is drained completely and judged against the exact closed-form integral "
              "(math/big). Non-trivial = at least 2 tokens and (fractional-second duration, or from != to, or a zero end-point, "
@@ -16,7 +20,7 @@ SPEC = {
              "TestImplicitStartRace: one generated once/const/line/step profile left UNSTARTED (as the engine leaves RPS schedules), "
              "2-8 goroutines released together drain it, 48 rounds per case; one start instant inside the measured window must "
              "explain every token (reference recomputed from the inferred start); non-trivial = >= 2 tokens."),
-    "floors": {"TestProfile/fractional_duration": 0.25, "TestProfile/line_decreasing": 0.05,
+    "floors": {"TestHugeProfile/tokens_gt_9300000": 0.6, "TestProfile/fractional_duration": 0.25, "TestProfile/line_decreasing": 0.05,
                "TestProfile/zero_endpoint": 0.05, "TestProfile/via_config": 0.3, "TestProfile/step_multi_level": 0.02},
     "manifest": {
         "technique": "property-based testing (rapid) against an exact closed-form integral oracle (math/big)",
